@@ -18,7 +18,7 @@ from ..common import Run, repo_import, seed
 from ..tlc import run_tlc, write_cfg
 
 BASE = dict(SuffixMatch=False, NoPrePass=False)
-CFG = {"synth": dict(MaxStreams=3, LabelIds={1, 2, 3, 4, 5, 6, 7, 8, 15}, UserTree=0),
+CFG = {"synth": dict(MaxStreams=3, LabelIds={1, 2, 3, 4, 5, 6, 7, 8, 11, 15}, UserTree=0),
        "user": dict(MaxStreams=3, LabelIds={1, 5, 8, 9, 10, 11, 12, 13}, UserTree=1),
        "user2": dict(MaxStreams=3, LabelIds={1, 2, 5, 8, 11, 12, 14}, UserTree=2),     # a zone name used at two depths
        "tiny": dict(MaxStreams=2, LabelIds={1, 2, 4, 6, 7}, UserTree=0)}
